@@ -6,7 +6,8 @@ import random
 from props.common import BASE_TRUSTED
 
 PROP = 'C13'
-KERNELS = ['sg_get_thickness', 'wf_opd_image_to_xp', 'wf_path_length', 'nr_sphere', 'ea_sag', 'pg_sag']
+KERNELS = ['sg_get_thickness', 'wf_opd_image_to_xp', 'wf_path_length', 'wf_path_length_vac', 'nr_sphere', 'ea_sag',
+           'pg_sag']
 THEOREMS = ['C13_queries_preserve_prescription', 'C13_output_depends_only_on_prescription',
             'C13_history_independent_output', 'C13_repeatable_output', 'C13_records_after_forward_trace',
             'C13_records_after_real_trace', 'C13_reverse_trace_leaves_lens', 'C13_built_wf',
@@ -18,7 +19,8 @@ THEOREMS = ['C13_queries_preserve_prescription', 'C13_output_depends_only_on_pre
             'C13_inplace_unchanged_iff', 'C13_newton_batch_iter', 'C13_batch_count_ge_single',
             'C13_newton_batch_member', 'C13_newton_companions_only_prolong', 'C13_newton_batch_exit_residual',
             'C13_newton_iterates_on_ray', 'C13_newton_batch_tolerance_partial',
-            'C13_wf_opd_image_to_xp_on_sphere', 'C13_wf_path_length_reads_only_the_ray']
+            'C13_wf_opd_image_to_xp_on_sphere', 'C13_wf_path_length_reads_only_the_ray',
+            'C13_wf_path_length_vac_reads_only_the_ray']
 TRUSTED_BASE = BASE_TRUSTED + [
     'modelled, not translated: the record plumbing of Surface/SurfaceGroup (reset, _record, getters, trace with skip, '
     'inverted deep copy) and the call graph of paraxial.py / ray_generator.py / optic.py / wavefront.py / analysis/*.py '
@@ -73,7 +75,7 @@ def kernel_cases(ctx):
         th.append([g.r.randrange(0, m - 1), pos])
     yield 'sg_get_thickness', th, {'shadow': ['positions'], 'arrays': ['self.positions']}
     # the code that reads the record table after a trace: ray at the image, reference sphere through the pupil
-    wfc, wfp = [], []
+    wfc, wfp, wfv = [], [], []
     rows = ['self.optic.surface_group.' + q for q in ('x', 'y', 'z', 'L', 'M', 'N', 'opd')]
     for i in range(n):
         xc, yc, zc = g.uni(-5, 5), g.uni(-5, 5), g.uni(-0.5, 0.5)
@@ -84,9 +86,14 @@ def kernel_cases(ctx):
         if i % 17 == 0:
             x, y = xc + 3 * R, yc            # outside the sphere, heading away: negative discriminant -> NaN
         wfc.append([xc, yc, zc, R, x, y, z, L, M, N])
-        wfp.append([xc, yc, zc, R, g.uni(50, 300), x, y, z, L, M, N])
+        opd = g.uni(50, 300)
+        wfv.append([xc, yc, zc, R, opd, x, y, z, L, M, N])
+        wfp.append([xc, yc, zc, R, opd, g.uni(1.0, 1.9) * (-1 if i % 7 == 0 else 1), x, y, z, L, M, N])
     yield 'wf_opd_image_to_xp', wfc, {'rows2d': rows}
-    yield 'wf_path_length', wfp, {'rows2d': rows}
+    yield 'wf_path_length_vac', wfv, {'rows2d': rows}
+    # with a wavelength the method reads self.optic.image_surface.material_pre through a local name: the generic
+    # runner cannot wire that, so the REAL method is run here on stub objects and its results handed over
+    yield 'wf_path_length', wfp, {'rows2d': rows, 'pyres': _run_path_length(wfp)}
     sph = []
     for i in range(n):
         d = g.unit3()
@@ -108,6 +115,29 @@ def kernel_cases(ctx):
         pg.append([x, y, R, k, [[g.uni(-1, 1) * 10 ** (-3 - (a + b)) for b in range(nc)] for a in range(nr)]])
     yield 'ea_sag', ea, {'scalars': ['self.radius', 'self.k'], 'tol': 1e-12}
     yield 'pg_sag', pg, {'scalars': ['self.radius', 'self.k'], 'tol': 1e-12}
+
+
+def _run_path_length(cases):
+    """Wavefront._get_path_length(xc, yc, zc, r, wavelength) of the implementation on stub record tables"""
+    import types
+    import numpy as np
+    from optiland.wavefront import Wavefront
+    out = []
+    for xc, yc, zc, R, opd, n, x, y, z, L, M, N in cases:
+        row = lambda v: np.array([[v]], dtype=float)   # noqa
+        one = lambda v: np.array([v], dtype=float)     # noqa
+        wf = object.__new__(Wavefront)
+        wf.optic = types.SimpleNamespace(
+            surface_group=types.SimpleNamespace(x=row(x), y=row(y), z=row(z), L=row(L), M=row(M), N=row(N),
+                                                opd=row(opd)),
+            image_surface=types.SimpleNamespace(material_pre=types.SimpleNamespace(n=lambda w, _n=n: _n)))
+        try:
+            with np.errstate(all='ignore'):
+                r = Wavefront._get_path_length(wf, one(xc), one(yc), one(zc), one(R), wavelength=0.55)
+            out.append({'ok': [float(np.ravel(r)[0]).hex()]})
+        except Exception as e:   # noqa
+            out.append({'err': type(e).__name__, 'msg': str(e)[:100]})
+    return out
 
 
 # --------------------------------------------------------------------------------------------------
@@ -255,6 +285,18 @@ def check_caller_arrays(ctx):
                 meta.append((spec, op, nm, v, changed, [float(x) for x in before[nm]], [float(x) for x in arr]))
                 if v != 0.0:
                     res['nontrivial'] += 1
+    # regression of the repaired defect D12 (fix 4ab4abd): the original input, and the static flags
+    try:
+        if _d12_reproduces():
+            res['disagreements'].append({'kind': 'caller-array-modified', 'call_site': 'Optic.trace_generic',
+                                         'args': ['Px', 'Py'], 'spec': D12_SPEC, 'history': [],
+                                         'op': {'op': 'trace_generic', 'Hx': 0.0, 'Hy': 1.0,
+                                                'Px': {'array': [0.1, 0.5, 1.0]}, 'Py': {'array': [0.0, 0.2, -1.0]},
+                                                'w': 0.55},
+                                         'note': 'regression of fix 4ab4abd (D12)', 'violates_property': True})
+    except Exception as e:   # noqa
+        res['error'] = 'D12 regression case raised: ' + repr(e)
+        return res
     if not lines:
         res['error'] = 'no cases'
         return res
@@ -318,8 +360,18 @@ def _geom_cases(ctx, rng, nb):
                 t = [float(v) for v in g.distance(rr)]
         except Exception as e:   # noqa
             continue
-        cases.append({'kind': kind, 'R': R, 'k': k, 'c': c, 'rays': rays, 't': t, 'tol': float(g.tol),
-                      'max_iter': int(g.max_iter)})
+        # the same rays one at a time (the property stated on the geometry itself)
+        alone = []
+        for j in range(n):
+            r1 = RealRays(a[j:j + 1, 3], a[j:j + 1, 4], a[j:j + 1, 5], a[j:j + 1, 0], a[j:j + 1, 1], a[j:j + 1, 2],
+                          np.ones(1), np.full(1, 0.55))
+            try:
+                with np.errstate(all='ignore'):
+                    alone.append(float(g.distance(r1)[0]))
+            except Exception:   # noqa
+                alone.append(float('nan'))
+        cases.append({'kind': kind, 'R': R, 'k': k, 'c': c, 'rays': rays, 't': t, 't_alone': alone,
+                      'tol': float(g.tol), 'max_iter': int(g.max_iter)})
     return cases
 
 
@@ -361,9 +413,31 @@ def check_newton_batch(ctx):
         for j in r[2]:
             c = cases[bi * chunk + j]
             res['disagreements'].append({'kind': 'newton-batch-model', 'case': c, 'violates_property': False})
+    # the property itself on the geometry: a ray's distance in the batch vs alone, within the tolerance slack
+    c13 = _lib()
+    worst = 0.0
+    for c in cases:
+        bad = None
+        for j, (tb, ta) in enumerate(zip(c['t'], c['t_alone'])):
+            if math.isnan(tb) != math.isnan(ta):
+                bad = (j, 'NaN pattern differs')
+            elif not math.isnan(tb) and tb != ta:
+                dev = abs(tb - ta)
+                if math.isfinite(dev):
+                    worst = max(worst, dev)
+                if not dev <= c13.slack(c['tol']):
+                    bad = (j, 'beyond tolerance')
+            if bad:
+                break
+        if bad:
+            res['disagreements'].append({'kind': 'ray-depends-on-companions', 'level': 'NewtonRaphsonGeometry.distance',
+                                         'case': c, 'ray': bad[0], 'why': bad[1], 'violates_property': True})
+            break
+    res['histogram']['worst_batch_vs_alone'] = worst
     if cases:
         c = [c for c in cases if len(c['rays']) > 1][0]
-        res['samples'].append({'geometry': c['kind'], 'R': c['R'], 'rays': len(c['rays']), 't': c['t'][:4]})
+        res['samples'].append({'geometry': c['kind'], 'R': c['R'], 'rays': len(c['rays']), 't': c['t'][:4],
+                               't_alone': c['t_alone'][:4]})
     return res
 
 
@@ -487,6 +561,10 @@ def matches_finding(w, f):
 def replay_finding(ctx, f):
     if f['id'] != D12:
         return None
+    return _d12_reproduces()
+
+
+def _d12_reproduces():
     import numpy as np
     c13 = _lib()
     o = c13.build(D12_SPEC)
